@@ -18,6 +18,9 @@
 #include "aws_sign.h"
 
 static time_t now_v = 0;
+/* the clock advances by one second per reading within one signing call (reset for every op): a request whose strings
+ * come from different readings is then visible without waiting for midnight */
+static int tcalls = 0;
 
 time_t __wrap_time(time_t *);
 
@@ -25,9 +28,13 @@ time_t
 __wrap_time(time_t * t)
 {
 
+	time_t v = now_v;
+
+	if (v != (time_t)(-1))
+		v += tcalls++;
 	if (t != NULL)
-		*t = now_v;
-	return (now_v);
+		*t = v;
+	return (v);
 }
 
 /* hex token -> NUL-terminated C string in an exact-size block */
@@ -138,6 +145,7 @@ main(void)
 	setvbuf(stdout, NULL, _IOFBF, 1 << 16);
 	while (hc_next()) {
 		n = 0;
+		tcalls = 0;
 		if (hc_is("case", 1)) {
 			now_v = 0;
 			printf("case %s", hc_tok[1]);
